@@ -22,8 +22,18 @@ open ClockBound ClockBound.Rs ClockBound.Generated ClockBound.Rs.DictShm ClockBo
 abbrev ctx (nowNs : Int) (sizes : List (String × Nat)) (inp : Nat → Nat) : Ctx :=
   Code.ctxWith nowNs DictShm.ext sizes (rawInp inp)
 
-/-- the model's default annotation: the orderings `SL.wStep` / `SL.rStep` use unless told otherwise -/
-def ann : SL.Ann := {}
+/-- THE ANNOTATION OF THE CODE: the memory orderings the source names for the writer's generation load, two
+    generation stores and fence, and for the reader's version load, two generation loads and fence — found by
+    evaluation (probe runs of `write`, of the statements of `snapshot` before its loop and of one loop iteration;
+    `Proofs/RsSeqlock.lean`), not written in any proof.  At HEAD it is the model's default `{}`
+    (`Properties/CodeTieSeqlockHead.lean`); a refactoring that STRENGTHENS an ordering changes this value, not the
+    theorems below. -/
+def ann : SL.Ann := SeqlockProof.snapAnn
+
+/-- … and it is one of the annotations the seqlock properties are proved for: `C02.no_mixture`,
+    `C03.accepted_monotone`, … hold for every adequate annotation, hence for the code's.  (A weakened ordering —
+    the seeded C02/C03 mutations — makes this theorem fail.) -/
+theorem ann_adequate : ann.adequate = true := SeqlockProof.snapAnn_adequate
 
 /-! ### the writer -/
 
@@ -32,8 +42,9 @@ def ann : SL.Ann := {}
     `()` and leaves `self` unchanged.  No hypothesis: every `g`, every list of words. -/
 theorem write_eq (inp : Nat → Nat) (cells : List Nat) (segsize : Nat) (nowNs : Int) (sizes : List (String × Nat)) :
     run (ctx nowNs sizes inp) "ShmWrite for ShmWriter::write" (writerValue segsize) [wordsValue cells]
-    = .ok .unit (writerValue segsize) ((SL.writerProg ann (inp 0 % 65536) cells).map accValue) :=
-  SeqlockProof.write_tie inp cells segsize nowNs sizes
+    = .ok .unit (writerValue segsize) ((SL.writerProg ann (inp 0 % 65536) cells).map accValue) := by
+  rw [ann, SeqlockProof.writerProg_snapAnn]
+  exact SeqlockProof.write_tie inp cells segsize nowNs sizes
 
 /-- the value range the Rust type forces on the generation: a `u16` -/
 def genInRange (g : Nat) : Prop := g < 65536
@@ -47,22 +58,6 @@ theorem write_record_eq (g : Nat) (hg : genInRange g) (inp : Nat → Nat) (h0 : 
     = .ok .unit (writerValue segsize) ((SL.writerProg ann g (Pipeline.cellsOf r pad)).map accValue) := by
   rw [write_eq, h0, Nat.mod_eq_of_lt hg]
 
-/-- the orderings of the source are those of the model's default annotation, which is the one the seqlock
-    properties are proved for: the accesses spelt out -/
-theorem write_ann (inp : Nat → Nat) (cells : List Nat) (segsize : Nat) (nowNs : Int) (sizes : List (String × Nat)) :
-    run (ctx nowNs sizes inp) "ShmWrite for ShmWriter::write" (writerValue segsize) [wordsValue cells]
-    = .ok .unit (writerValue segsize)
-        ([evLoad (.str "generation") (ordering "Acquire") (.int .u16 (inp 0 % 65536 : Nat)),
-          evStore (.str "generation") (.int .u16 (genStart (inp 0 % 65536))) (ordering "Release"),
-          evFence (ordering "Release")] ++
-         ((List.range cells.length).map fun c =>
-            evStore (cellLoc c) (.int .u64 ((cells[c]?.getD 0 : Nat) : Int)) (ordering "Relaxed")) ++
-         [evStore (.str "generation") (.int .u16 (genFinish (genStart (inp 0 % 65536)))) (ordering "Release")]) ∧
-    ann.adequate = true := by
-  refine ⟨?_, by decide⟩
-  rw [write_eq]
-  simp [ann, SL.writerProg, accValue, locValue, locTy, ordValue, List.map_map, Function.comp_def]
-
 /-- the generated code never leaves the fragment the interpreter and the dictionary have rules for -/
 theorem write_not_stuck (inp : Nat → Nat) (cells : List Nat) (segsize : Nat) (nowNs : Int) (sizes : List (String × Nat)) :
     (run (ctx nowNs sizes inp) "ShmWrite for ShmWriter::write" (writerValue segsize) [wordsValue cells]).isStuck = false := by
@@ -73,7 +68,7 @@ example : (run (Code.ctx 0) "ShmWrite for ShmWriter::write" (writerValue 72) [wo
   simp [rs_eval, rs_code, writerValue, wordsValue, Outcome.isStuck, DictShm.ptrA16, DictShm.ptrCeb]
 
 /-- an example: roll-over 65534 → 65535 → 2, record words 1..7 -/
-example : SL.storesOf (SL.writerProg ann 65534 [1, 2, 3, 4, 5, 6, 7]) =
+example : SL.storesOf (SL.writerProg {} 65534 [1, 2, 3, 4, 5, 6, 7]) =
     [(.gen, 65535), (.cell 0, 1), (.cell 1, 2), (.cell 2, 3), (.cell 3, 4), (.cell 4, 5), (.cell 5, 6), (.cell 6, 7), (.gen, 2)] := by
   decide
 
@@ -116,9 +111,9 @@ theorem snapshot_machine (inp : Nat → Nat) (r : SL.Reader) (nowNs : Int) (size
 example :
     let inp : Nat → Nat := fun k => if k = 0 then 1 else if k = 1 then 4 else if k = 9 then 6 else if k = 17 then 6 else k
     inpInRange inp 40 ∧
-    (SL.readerProg ann (typedInp inp) 2 (List.replicate SL.N 0)).2
+    (SL.readerProg {} (typedInp inp) 2 (List.replicate SL.N 0)).2
       = (.ok [10, 11, 12, 13, 14, 15, 16], 6, [10, 11, 12, 13, 14, 15, 16]) ∧
-    (SL.readerProg ann (typedInp inp) 2 (List.replicate SL.N 0)).1.length = 2 + 2 * (SL.N + 2) := by
+    (SL.readerProg {} (typedInp inp) 2 (List.replicate SL.N 0)).1.length = 2 + 2 * (SL.N + 2) := by
   decide
 
 /-- without the dictionary `snapshot` is stuck at its first shared access -/
